@@ -204,3 +204,11 @@ Proof.
   - split; vm_compute; reflexivity.
 Qed.
 Print Assumptions C04_example_case_corr.
+
+(* histories of calls (several live filters, interleaved consumption, shared argument objects): each call
+   is judged by the per-call model on the contents its arguments had when it was made *)
+Theorem C04_calls_independent : forall h,
+  Forall (fun c => carg_ok (c_num c) /\ carg_ok (c_den c)) (h_cases h) ->
+  corr_hist h = true -> holds_hist h = true.
+Proof. exact calls_independent. Qed.
+Print Assumptions C04_calls_independent.
